@@ -707,10 +707,15 @@ VList(S, e, S2) ==
                          S.subs[x].live /\ S.subs[x].proj = e.proj}}
                 [] e.kind = "snap" ->
                      {n \in DOMAIN S.snaps : S.snaps[n].proj = e.proj}
+                \* ListTopicSubscriptions: the live subscriptions attached to the live topic e.name
+                [] e.kind = "topicsubs" ->
+                     {S.subs[s].name : s \in {x \in DOMAIN S.subs :
+                         S.subs[x].live /\ S.subs[x].topic \in TopicsNamed(S, e.name)}}
       got == {e.names[i] : i \in DOMAIN e.names}
+      noTopic == e.kind = "topicsubs" /\ TopicsNamed(S, e.name) = {}
   IN
   Chk("C12:list-changed-state", Core(S2) = Core(S))
-  \cup Chk("C12:list-failed", e.code = "OK")
+  \cup Chk("C12:list-failed", IF noTopic THEN e.code = "NotFound" ELSE e.code = "OK")
   \cup Chk("C12:list-missing", e.code = "OK" => want \subseteq got)
   \cup Chk("C12:list-extra", e.code = "OK" => got \subseteq want)
   \cup Chk("C12:list-duplicate", e.code = "OK" => Cardinality(got) = Len(e.names))
